@@ -15,7 +15,7 @@ from vlib import core  # noqa: F401
 
 from nutree import Tree, TypedTree
 
-WATCHDOG_S = 300
+WATCHDOG_S = 120
 _CURRENT = {"sched": None}
 
 
